@@ -22,11 +22,21 @@ def gen(rng, nworkers):
     return lines
 
 
-def modes(rng, n):
+def modes(rng, n, nworkers=2):
     out = []
+    E = nworkers          # the epoch thread runs as the thread after the workers
     for _ in range(n):
         r = rng.random()
-        if r < 0.4:
+        if r < 0.3:
+            # windows inside enter / leave: a worker runs a few steps, the epoch thread several periods, the worker again
+            w = rng.randrange(nworkers)
+            segs = [(w, rng.randrange(1, 16)), (E, rng.randrange(4, 45)), (w, rng.randrange(1, 30))]
+            if rng.random() < 0.5:
+                segs.insert(0, (rng.randrange(nworkers), rng.randrange(0, 25)))
+            if rng.random() < 0.5:
+                segs += [(rng.randrange(nworkers), rng.randrange(1, 30)), (E, rng.randrange(2, 30))]
+            out.append("mode script " + " ".join("seg %d:%d" % sg for sg in segs) + " maxsteps 60000")
+        elif r < 0.55:
             out.append("mode random seed %d stick %.2f maxsteps 60000" % (rng.getrandbits(30), rng.choice([0.3, 0.5, 0.8])))
         elif r < 0.7:
             out.append("mode pct seed %d depth %d maxsteps 60000" % (rng.getrandbits(30), rng.choice([1, 2, 3])))
@@ -80,7 +90,7 @@ def run(tier, seed):
         cap = rng.choice([1, 2, 3])
         nw = rng.choice([2, 3, 4])
         body = gen(rng, nw)
-        for m in modes(rng, 40 if tier == "quick" else 200):
+        for m in modes(rng, 60 if tier == "quick" else 250, nw):
             jobs.append((builds[cap], "\n".join([m] + body) + "\n"))
     with ThreadPoolExecutor(max_workers=16) as ex:
         results = list(ex.map(lambda ij: one(ij[1][0], ij[1][1], wd, ij[0]), list(enumerate(jobs))))
